@@ -36,19 +36,19 @@ theorem uniqueCIDs_eq (cids : List Hash) : Generated.Go.uniqueCIDs cids = dedupH
 theorem uniqueCIDs_eq_uniq (cids : List Hash) : Generated.Go.uniqueCIDs cids = uniq cids := by
   rw [uniqueCIDs_eq, uniq_eq_dedup]
 
-/-- `SetIdentity`, translated: the clock the model's `setIdentity` installs -/
+theorem fold_max_comm (hs : List Entry) : ∀ (t : Int),
+    hs.foldl (fun t h => max t h.clock.time) t = maxTime hs t := by
+  unfold maxTime
+  induction hs with
+  | nil => intro t; rfl
+  | cons h tl ih => intro t; simp only [List.foldl_cons, ih, Int.max_comm]
+
+/-- `SetIdentity`, translated: the clock the model's `setIdentity` installs (whether the maximum over the heads is the
+    hand-written loop or a call of `maxClockTimeForEntries`) -/
 theorem setIdentity_eq (l : Log) (cid : Bytes) :
     Generated.Go.setIdentity l.heads l.clock.id l.clock.time cid =
       ((setIdentity l cid).clock.id, (setIdentity l cid).clock.time) := by
-  unfold Generated.Go.setIdentity setIdentity maxTime
-  simp only [C19Gen.maxInt_eq]
-  congr 1
-  have : ∀ (hs : List Entry) (t : Int),
-      hs.foldl (fun t h => max t h.clock.time) t = hs.foldl (fun m e => max e.clock.time m) t := by
-    intro hs
-    induction hs with
-    | nil => intro t; rfl
-    | cons h tl ih => intro t; simp only [List.foldl_cons, ih, Int.max_comm]
-  exact this l.heads l.clock.time
+  unfold Generated.Go.setIdentity setIdentity
+  simp only [C19Gen.maxInt_eq, maxClockTimeForEntries_eq, fold_max_comm]
 
 end Model.SlicesGen
